@@ -20,7 +20,10 @@ def one(sid):
         if r.returncode != 0:
             return (sid, None, "patch no longer applies")
         fired, errors = {}, {}
-        for p in CLAIMED:
+        target_only = bool(os.environ.get("NQSA_TARGET_ONLY"))
+        if target_only:
+            fired = {k: v for k, v in (meta.get("checks_fired") or {}).items() if k != meta["property"]}
+        for p in ([meta["property"]] if target_only else CLAIMED):
             ctx = evaluate(p, "quick", root=scratch)
             v, k = report.classify(ctx)
             if v:
